@@ -61,15 +61,29 @@ def _ipow(b: Any, n: int) -> Any:
     return r
 
 
+def _simplest_between(lo: Fraction, hi: Fraction) -> Fraction:
+    """The fraction with the smallest denominator in [lo, hi] (0 < lo <= hi), by continued fractions."""
+    fl = lo.numerator // lo.denominator
+    if fl == lo:
+        return Fraction(fl)
+    if fl + 1 <= hi:
+        return Fraction(fl + 1)
+    rest = _simplest_between(1 / (hi - fl), 1 / (lo - fl))
+    return fl + 1 / rest
+
+
 def unround(v: Any) -> Any:
-    """A concrete float constant stands for the simplest rational it rounds to (4 / -5 folded to -0.8 means -4/5):
-    'up to floating-point rounding of constants the rule folded'.  Only applied when that rational is within
-    1e-12 (relative) of the float; other floats keep their exact binary value."""
+    """A concrete float constant stands for the simplest rational it rounds to (4 / -5 folded to -0.8 means -4/5,
+    1 / 200000 / 300000 folded to 1.6666666666666667e-11 means 1/60000000000): 'up to floating-point rounding of
+    constants the rule folded'.  The simplest rational within 1e-13 (relative) of the float is taken when its
+    denominator is below 10**12; other floats keep their exact binary value."""
     if isinstance(v, float) and v == v and v not in (float("inf"), float("-inf")) and v != 0:
         f = Fraction(v)
-        g = f.limit_denominator(10**6)
-        if g != 0 and abs((f - g) / f) < Fraction(1, 10**12):
-            return g
+        a = abs(f)
+        eps = a / 10**13
+        g = _simplest_between(a - eps, a + eps)
+        if g.denominator < 10**12 and g.numerator < 10**15:
+            return g if f > 0 else -g
     return v
 
 
